@@ -31,7 +31,10 @@ Orders == {<<":method", ":path", ":authority", ":scheme">>, <<":method", ":autho
            <<":method", ":path", ":scheme">>,
            \* regular fields between the pseudo-headers (malformed per RFC 7540 8.1.2.1, but the order of the pseudo-headers is still defined)
            <<":method", "accept-encoding", ":scheme", ":path", ":authority">>, <<"accept-encoding", ":method", ":path", ":scheme">>}
-Framings == {Plain, [Plain EXCEPT !.pad = 3], [Plain EXCEPT !.prio = <<[excl |-> FALSE, dep |-> <<0, 0>>, weight |-> 15]>>], [Plain EXCEPT !.cuts = <<2>>]}
+Framings == {Plain, [Plain EXCEPT !.pad = 3], [Plain EXCEPT !.prio = <<[excl |-> FALSE, dep |-> <<0, 0>>, weight |-> 15]>>], [Plain EXCEPT !.cuts = <<2>>],
+             \* padding AND priority fields (pad length first, then dependency and weight), also with a continuation
+             [Plain EXCEPT !.pad = 3, !.prio = <<[excl |-> FALSE, dep |-> <<0, 0>>, weight |-> 15]>>],
+             [Plain EXCEPT !.pad = 0, !.prio = <<[excl |-> TRUE, dep |-> <<0, 3>>, weight |-> 200]>>, !.cuts = <<3>>]}
 
 Seqs ==
      {<<s>> \o w \o p \o <<Hd(o, Plain)>> : s \in SettingsS, w \in WuS, p \in PrS, o \in Orders}                 \* the usual order
